@@ -1,5 +1,6 @@
 import Enc.Lemmas.Proto
 import Enc.Lemmas.ProtoVarint
+import Enc.Lemmas.ProtoRoundTrip
 /-!
 # C03 — proto: Unmarshal(Marshal(v)) == v and Size(v) == len(Marshal(v))
 
@@ -46,5 +47,30 @@ theorem varint_size_bounds (v : BitVec 64) : 1 ≤ sizeOfVarint v ∧ sizeOfVari
 example : encode (.struct (.cons 1 false false false .int32 (.cons 2 false true false (.slice .bool 2 .varint false) .nil)))
     (.struct (.cons (.int 5) (.cons (.list (.cons (.bool false) (.cons (.bool true) .nil))) .nil))) {}
     = [0x08, 0x05, 0x10, 0x00, 0x10, 0x01] := by decide +kernel
+
+/-! ## Unmarshal ∘ Marshal (proofs in Enc/Lemmas/ProtoRoundTrip*.lean, on top of ProtoWire*.lean)
+
+Universe `tyOK` (see Props/C12): messages with scalar fields of every kind and tag, nested messages, optional `*T` and
+repeated `[]T` fields, field numbers 1…65535 pairwise distinct; `hasType`: well-typed values in range. Outside it: maps,
+byte arrays, `[]*T`, `**T`, named types, RawMessage (differential only) and the known-finding shapes. -/
+
+open Lemmas.ProtoWire Lemmas.ProtoRoundTrip in
+/-- **MAIN (round trip, scalar messages).** The model's own decoder inverts the model's encoder, literally — also when
+every field is zero and nothing is written. -/
+theorem unmarshal_marshal (fs : Fields) (v : Val)
+    (hty : tyOK (.struct fs) = true) (hpl : plainTy (.struct fs) = true) (hv : hasType (.struct fs) v = true)
+    (hlen : (marshal (.struct fs) v).length < 2 ^ 64) :
+    unmarshal (.struct fs) (marshal (.struct fs) v) = .ok v :=
+  Lemmas.ProtoRoundTrip.unmarshal_marshal_scalar fs v hty hpl hv hlen
+
+open Lemmas.ProtoWire Lemmas.ProtoRoundTrip in
+/-- … and with optional and repeated fields, up to the nil-versus-empty normal form; `noEmptyPtr` excludes exactly the
+known finding "a pointer whose pointee encodes to zero bytes comes back nil" -/
+theorem unmarshal_marshal_partial (fs : Fields) (v : Val)
+    (hty : tyOK (.struct fs) = true) (hv : hasType (.struct fs) v = true) (hne : noEmptyPtr (.struct fs) v = true)
+    (hlen : (marshal (.struct fs) v).length < 2 ^ 64) :
+    ∃ v', unmarshal (.struct fs) (marshal (.struct fs) v) = .ok v'
+      ∧ Spec.Protobuf.canonical (.struct fs) v' = Spec.Protobuf.canonical (.struct fs) v :=
+  Lemmas.ProtoRoundTrip.unmarshal_marshal_partial fs v hty hv hne hlen
 
 end Enc.Props.C03
